@@ -69,7 +69,7 @@ EXCLUDED = {
     "bitwise / unsigned / cast operators, boolean operations": "never generated (concrete meaning depends on the bit width)",
 }
 CHECKS = {"C03": ("at", "entails", "csts", "bot"), "C04": ("leq", "at", "bot", "csts"),
-          "C05": ("at", "csts", "bot", "leq"), "C16": ("at", "entails", "csts", "bot", "leq")}
+          "C05": ("at", "csts", "bot", "leq"), "C16": ("at", "entails", "csts", "bot", "leq", "botcsts")}
 MAX_SHRINK_PER_BUCKET = 2
 MAX_SHRUNK = 12
 NWORKERS = 4
@@ -78,7 +78,7 @@ NWORKERS = 4
 def sizes(tier, prop):
     """histories per domain"""
     if tier == "quick":
-        return {"C03": 260, "C04": 260, "C05": 60, "C16": 130}[prop]
+        return {"C03": 200, "C04": 240, "C05": 60, "C16": 120}[prop]
     return {"C03": 5000, "C04": 4000, "C05": 1200, "C16": 2500}[prop]
 
 
@@ -343,7 +343,7 @@ def run_domain(prop, tier, seed, dom, exe, n, known, shrink_ok, base_answers):
     if prop == "C03" and dom["rel"]:
         # decomposition of general linear constraints against established bounds, with a
         # dense sample of the solutions (domall_extra.lin_samples)
-        ll = X.lin_histories(seed + 33, 220 if tier == "quick" else 3000)
+        ll = X.lin_histories(seed + 33, 200 if tier == "quick" else 3000)
         la = run_cases(exe, name, ll, os.path.join(outd, stream + "-lin.cases"))
         ne = [0]
 
